@@ -248,7 +248,7 @@ Lemma sumsq_cons : forall x t, sumsq (x :: t) = x * x + sumsq t.
 Proof. reflexivity. Qed.
 
 Lemma sumsq_nonneg : forall t, 0 <= sumsq t.
-Proof. induction t as [|z t IH]; [cbn; lra|]. rewrite sumsq_cons. nra. Qed.
+Proof. induction t as [|z t IH]; [change (sumsq []) with 0; lra|]. rewrite sumsq_cons. nra. Qed.
 
 Lemma descending_inv : forall x t, descending (x :: t) -> Forall (fun y => y <= x) t /\ descending t.
 Proof. intros x t H. inversion H; subst. split; assumption. Qed.
@@ -257,27 +257,28 @@ Lemma firstn_shift : forall t x k, descending (x :: t) -> nonneg (x :: t) ->
   sumsq (firstn (S k) t) <= x * x + sumsq (firstn k t).
 Proof.
   induction t as [|y t IH]; intros x k D N.
-  - destruct k; cbn; nra.
+  - rewrite !firstn_nil. change (sumsq []) with 0. nra.
   - destruct (descending_inv _ _ D) as [F D'].
     assert (0 <= y /\ y <= x) as [Hy Hyx].
     { split; [inversion N as [|? ? _ N']; inversion N'; assumption|inversion F; assumption]. }
     assert (nonneg (y :: t)) as N' by (inversion N; assumption).
-    cbn [firstn]. rewrite sumsq_cons. destruct k as [|k].
-    + cbn [firstn]. cbn [sumsq fold_right]. nra.
-    + cbn [firstn]. rewrite sumsq_cons. specialize (IH y k D' N'). nra.
+    pose proof (sq_mono x y Hy Hyx) as SQ.
+    rewrite firstn_cons, sumsq_cons. destruct k as [|k].
+    + rewrite !firstn_O. change (sumsq []) with 0. lra.
+    + rewrite firstn_cons, sumsq_cons. specialize (IH y k D' N'). lra.
 Qed.
 
 Lemma kept_are_largest_subseq : forall s, descending s -> nonneg s ->
   forall l, subseq l s -> sumsq l <= sumsq (firstn (length l) s).
 Proof.
   induction s as [|x t IH]; intros D N l H.
-  - inversion H; subst. cbn. lra.
+  - inversion H; subst. cbn [length firstn]. lra.
   - destruct (descending_inv _ _ D) as [F D'].
     assert (nonneg t) as N' by (inversion N; assumption).
     inversion H; subst.
     + cbn [length firstn]. rewrite !sumsq_cons. specialize (IH D' N' _ H2). lra.
     + specialize (IH D' N' _ H2). destruct (length l) as [|k] eqn:E.
-      * destruct l; [|discriminate]. cbn. lra.
+      * destruct l; [|discriminate]. cbn [firstn]. lra.
       * cbn [firstn]. rewrite sumsq_cons. pose proof (firstn_shift t x k D N). lra.
 Qed.
 
@@ -306,7 +307,7 @@ Proof.
   - destruct m; destruct Hx.
   - destruct (descending_inv _ _ D) as [F D']. destruct m as [|m]; [destruct Hx|].
     cbn [firstn skipn] in *. destruct Hx as [->|Hx].
-    + rewrite Forall_forall in F. apply F. eapply (In_skipn_In m). exact Hy.
+    + rewrite Forall_forall in F. apply F. rewrite <- (firstn_skipn m t). apply in_or_app. right. exact Hy.
     + eapply IH; eassumption.
 Qed.
 
@@ -322,7 +323,580 @@ Proof.
   rewrite (sumsq_perm _ _ P). unfold discarded.
   rewrite <- (firstn_skipn (length c) s) at 1.
   generalize (firstn (length c) s) (skipn (length c) s). clear.
-  induction l as [|x l IH]; intro r; cbn [app]; [cbn; ring|]. rewrite !sumsq_cons. rewrite IH. ring.
+  induction l as [|x l IH]; intro r; cbn [app]; [change (sumsq []) with 0; ring|]. rewrite !sumsq_cons. rewrite IH. ring.
 Qed.
 
 Close Scope Q_scope.
+
+(* ======================================================================= Part B: nested projections *)
+Section Projections.
+  Variable R : OrdRing.
+  Variable E : InnerSpace R.
+  Add Ring Kring : (k_ring R).
+
+  Local Notation add := (kadd R).
+  Local Notation sub := (ksub R).
+  Local Notation zero := (k0 R).
+  Local Notation le := (kle R).
+  Local Notation ip := (inner E).
+  Local Notation nsq := (@normsq R E).
+  Local Notation vminus := (vsub E).
+
+  Lemma inner_sub_r : forall u v w, ip u (vminus v w) = sub (ip u v) (ip u w).
+  Proof.
+    intros u v w. rewrite (inner_sym R E u), (inner_sub_l R E), (inner_sym R E v u), (inner_sym R E w u).
+    reflexivity.
+  Qed.
+
+  Lemma inner_add_r : forall u v w, ip u (vadd E v w) = add (ip u v) (ip u w).
+  Proof.
+    intros u v w. rewrite (inner_sym R E u), (inner_add_l R E), (inner_sym R E v u), (inner_sym R E w u).
+    reflexivity.
+  Qed.
+
+  Lemma inner_zero_r : forall u, ip u (v0 E) = zero.
+  Proof. intros u. rewrite (inner_sym R E). apply (inner_zero_l R E). Qed.
+
+  Lemma normsq_sub : forall u v,
+    nsq (vminus u v) = add (sub (nsq u) (add (ip u v) (ip u v))) (nsq v).
+  Proof.
+    intros u v. unfold normsq. rewrite (inner_sub_l R E), !inner_sub_r, (inner_sym R E v u). ring.
+  Qed.
+
+  Lemma le_zero_add : forall a b, le zero a -> le zero b -> le zero (add a b).
+  Proof.
+    intros a b Ha Hb. apply (kle_trans R _ b); [exact Hb|].
+    pose proof (kle_add R zero a b Ha) as H.
+    replace (add zero b) with b in H by ring. exact H.
+  Qed.
+
+  Lemma ksum_upto_nonneg : forall (f : nat -> R) n, (forall k, (k < n)%nat -> le zero (f k)) -> le zero (ksum_upto f n).
+  Proof.
+    intros f n. induction n as [|n IH]; intro H; cbn [ksum_upto]; [apply (kle_refl R)|].
+    apply le_zero_add; [apply IH; intros; apply H; lia|apply H; lia].
+  Qed.
+
+  Lemma ksum_upto_ext : forall (f g : nat -> R) n, (forall k, (k < n)%nat -> f k = g k) -> ksum_upto f n = ksum_upto g n.
+  Proof.
+    intros f g n. induction n as [|n IH]; intro H; cbn [ksum_upto]; [reflexivity|].
+    rewrite IH, H; [reflexivity|lia|intros; apply H; lia].
+  Qed.
+
+  (* one orthogonal projection never increases the norm (no nesting needed) *)
+  Lemma projection_norm_nonincreasing : forall P v, orth_projector E P -> le (nsq (P v)) (nsq v).
+  Proof.
+    intros P v [Hid Hsa].
+    assert (ip (P v) v = nsq (P v)) as C.
+    { unfold normsq. rewrite (Hsa v (P v)), (Hid v). apply (inner_sym R E). }
+    assert (nsq v = add (nsq (P v)) (nsq (vminus v (P v)))) as D.
+    { rewrite normsq_sub. rewrite (inner_sym R E v (P v)), C. ring. }
+    rewrite D. assert (le zero (nsq (vminus v (P v)))) as NNv by apply (inner_pos R E).
+    pose proof (kle_add R zero (nsq (vminus v (P v))) (nsq (P v)) NNv) as H.
+    replace (add zero (nsq (P v))) with (nsq (P v)) in H by ring.
+    replace (add (nsq (vminus v (P v))) (nsq (P v))) with (add (nsq (P v)) (nsq (vminus v (P v)))) in H by ring.
+    exact H.
+  Qed.
+
+  (* any sequence of orthogonal projections (e.g. the tree sweep, which is NOT nested) *)
+  Lemma projection_sequence_norm : forall (P : nat -> E -> E) (psi : nat -> E) n,
+    (forall k, (k < n)%nat -> orth_projector E (P k)) ->
+    (forall k, (k < n)%nat -> psi (S k) = P k (psi k)) ->
+    le (nsq (psi n)) (nsq (psi 0%nat)).
+  Proof.
+    intros P psi n. induction n as [|n IH]; intros HP Hs; [apply (kle_refl R)|].
+    apply (kle_trans R _ (nsq (psi n))).
+    - rewrite (Hs n ltac:(lia)). apply projection_norm_nonincreasing. apply HP. lia.
+    - apply IH; intros; [apply HP|apply Hs]; lia.
+  Qed.
+
+  Section Nested.
+    Variable P : nat -> E -> E.
+    Variable psi : nat -> E.
+    Variable n : nat.
+    Hypothesis Hsa : forall k, (k < n)%nat -> self_adjoint E (P k).
+    Hypothesis Hstep : forall k, (k < n)%nat -> psi (S k) = P k (psi k).
+    (* THE nesting condition: every later iterate lies in the range of every earlier projector *)
+    Hypothesis Hnest : forall j k, (j < k)%nat -> (k <= n)%nat -> P j (psi k) = psi k.
+
+    Lemma step_inner : forall j k, (j < k)%nat -> (k <= n)%nat -> ip (psi (S j)) (psi k) = ip (psi j) (psi k).
+    Proof.
+      intros j k Hjk Hk. rewrite (Hstep j ltac:(lia)). rewrite (Hsa j ltac:(lia)).
+      rewrite (Hnest j k Hjk Hk). reflexivity.
+    Qed.
+
+    Lemma cross : forall m j k, (j + m = k)%nat -> (k <= n)%nat -> ip (psi j) (psi k) = nsq (psi k).
+    Proof.
+      induction m as [|m IH]; intros j k Hm Hk.
+      - replace j with k by lia. reflexivity.
+      - rewrite <- (step_inner j k ltac:(lia) Hk). apply IH; lia.
+    Qed.
+
+    Lemma dist_sq : forall j k, (j <= k)%nat -> (k <= n)%nat ->
+      nsq (vminus (psi j) (psi k)) = sub (nsq (psi j)) (nsq (psi k)).
+    Proof.
+      intros j k Hjk Hk. rewrite normsq_sub. rewrite (cross (k - j) j k ltac:(lia) Hk). ring.
+    Qed.
+
+    Lemma telescope : forall m, (m <= n)%nat ->
+      ksum_upto (fun k => nsq (vminus (psi k) (psi (S k)))) m = sub (nsq (psi 0%nat)) (nsq (psi m)).
+    Proof.
+      induction m as [|m IH]; intro Hm; cbn [ksum_upto]; [ring|].
+      rewrite (IH ltac:(lia)). rewrite (dist_sq m (S m) ltac:(lia) Hm). ring.
+    Qed.
+
+    Theorem nested_projection_pythagoras_sec :
+      nsq (vminus (psi 0%nat) (psi n)) = ksum_upto (fun k => nsq (vminus (psi k) (psi (S k)))) n
+      /\ nsq (psi 0%nat) = add (nsq (psi n)) (ksum_upto (fun k => nsq (vminus (psi k) (psi (S k)))) n)
+      /\ le (nsq (psi n)) (nsq (psi 0%nat)).
+    Proof.
+      pose proof (telescope n (le_n n)) as T.
+      assert (le zero (ksum_upto (fun k => nsq (vminus (psi k) (psi (S k)))) n)) as NN.
+      { apply ksum_upto_nonneg. intros. apply (inner_pos R E). }
+      split; [|split].
+      - rewrite (dist_sq 0 n ltac:(lia) (le_n n)). symmetry. exact T.
+      - rewrite T. ring.
+      - pose proof (kle_add R _ _ (nsq (psi n)) NN) as H. rewrite T in H.
+        replace (add zero (nsq (psi n))) with (nsq (psi n)) in H by ring.
+        replace (add (sub (nsq (psi 0%nat)) (nsq (psi n))) (nsq (psi n))) with (nsq (psi 0%nat)) in H by ring.
+        exact H.
+    Qed.
+
+    (* every single step discard is a lower bound of the total distance *)
+    Lemma step_le_total : forall k, (k < n)%nat ->
+      le (nsq (vminus (psi k) (psi (S k)))) (nsq (vminus (psi 0%nat) (psi n))).
+    Proof.
+      intros k Hk. rewrite (dist_sq 0 n ltac:(lia) (le_n n)), (dist_sq k (S k) ltac:(lia) ltac:(lia)).
+      (* |psi_0|^2 >= |psi_k|^2  and  |psi_{k+1}|^2 >= |psi_n|^2 , both by telescoping non-negative sums *)
+      assert (forall a b, (a <= b)%nat -> (b <= n)%nat -> le (nsq (psi b)) (nsq (psi a))) as Mono.
+      { intros a b Hab Hb. pose proof (dist_sq a b Hab Hb) as D.
+        assert (le zero (nsq (vminus (psi a) (psi b)))) as NNab by apply (inner_pos R E).
+        pose proof (kle_add R _ _ (nsq (psi b)) NNab) as H.
+        rewrite D in H.
+        replace (add zero (nsq (psi b))) with (nsq (psi b)) in H by ring.
+        replace (add (sub (nsq (psi a)) (nsq (psi b))) (nsq (psi b))) with (nsq (psi a)) in H by ring.
+        exact H. }
+      pose proof (Mono 0%nat k ltac:(lia) ltac:(lia)) as M1.
+      pose proof (Mono (S k) n ltac:(lia) ltac:(lia)) as M2.
+      (* a_k - a_{k+1} <= a_0 - a_n  from a_k <= a_0 and a_n <= a_{k+1} *)
+      pose proof (kle_add R _ _ (kopp R (nsq (psi (S k)))) M1) as H1.
+      pose proof (kle_add R _ _ (sub (nsq (psi 0%nat)) (add (nsq (psi n)) (nsq (psi (S k))))) M2) as H2.
+      apply (kle_trans R _ (add (nsq (psi 0%nat)) (kopp R (nsq (psi (S k)))))).
+      - replace (sub (nsq (psi k)) (nsq (psi (S k)))) with (add (nsq (psi k)) (kopp R (nsq (psi (S k))))) by ring.
+        exact H1.
+      - replace (add (nsq (psi 0%nat)) (kopp R (nsq (psi (S k)))))
+          with (add (nsq (psi n)) (sub (nsq (psi 0%nat)) (add (nsq (psi n)) (nsq (psi (S k)))))) by ring.
+        replace (sub (nsq (psi 0%nat)) (nsq (psi n)))
+          with (add (nsq (psi (S k))) (sub (nsq (psi 0%nat)) (add (nsq (psi n)) (nsq (psi (S k)))))) by ring.
+        exact H2.
+    Qed.
+  End Nested.
+
+  (* two operator-level conditions that imply the nesting condition *)
+  Lemma decreasing_projectors_nested : forall (P : nat -> E -> E) (psi : nat -> E) n,
+    (forall k, (k < n)%nat -> idempotent E (P k)) ->
+    (forall k, (k < n)%nat -> psi (S k) = P k (psi k)) ->
+    (forall j k v, (j < k)%nat -> (k < n)%nat -> P j (P k v) = P k v) ->      (* range P_k inside range P_j *)
+    forall j k, (j < k)%nat -> (k <= n)%nat -> P j (psi k) = psi k.
+  Proof.
+    intros P psi n Hid Hs Hdec j k Hjk Hk. destruct k as [|k]; [lia|].
+    rewrite (Hs k ltac:(lia)). destruct (Nat.eq_dec j k) as [->|Hne].
+    - apply Hid. lia.
+    - apply Hdec; lia.
+  Qed.
+
+  Lemma commuting_projectors_nested : forall (P : nat -> E -> E) (psi : nat -> E) n,
+    (forall k, (k < n)%nat -> idempotent E (P k)) ->
+    (forall k, (k < n)%nat -> psi (S k) = P k (psi k)) ->
+    (forall j k v, (j < k)%nat -> (k < n)%nat -> P j (P k v) = P k (P j v)) ->
+    forall j k, (j < k)%nat -> (k <= n)%nat -> P j (psi k) = psi k.
+  Proof.
+    intros P psi n Hid Hs Hc j k. induction k as [|k IH]; intros Hjk Hk; [lia|].
+    rewrite (Hs k ltac:(lia)). destruct (Nat.eq_dec j k) as [->|Hne].
+    - apply Hid. lia.
+    - rewrite (Hc j k _ ltac:(lia) ltac:(lia)). rewrite (IH ltac:(lia) ltac:(lia)). reflexivity.
+  Qed.
+
+  (* ---------------- the SVD step contract: Schmidt components ---------------- *)
+  Lemma inner_vsum_l : forall l x, ip (vsum E l) x = ksum (map (fun e => ip e x) l).
+  Proof.
+    induction l as [|e l IH]; intro x.
+    - apply (inner_zero_l R E).
+    - change (vsum E (e :: l)) with (vadd E e (vsum E l)).
+      change (ksum (map (fun e0 => ip e0 x) (e :: l))) with (add (ip e x) (ksum (map (fun e0 => ip e0 x) l))).
+      rewrite (inner_add_l R E), IH. reflexivity.
+  Qed.
+
+  Lemma ksum_app : forall a b, ksum (a ++ b) = add (ksum a) (ksum b).
+  Proof.
+    induction a as [|x a IH]; intro b.
+    - change (ksum ([] ++ b)) with (ksum b). change (@ksum R []) with zero. ring.
+    - change (ksum ((x :: a) ++ b)) with (add x (ksum (a ++ b))). change (ksum (x :: a)) with (add x (ksum a)).
+      rewrite IH. ring.
+  Qed.
+
+  Lemma ksum_map_ext : forall (f g : E -> R) l, Forall (fun e => f e = g e) l -> ksum (map f l) = ksum (map g l).
+  Proof.
+    intros f g l H. induction H as [|e l He _ IH]; [reflexivity|].
+    change (ksum (map f (e :: l))) with (add (f e) (ksum (map f l))).
+    change (ksum (map g (e :: l))) with (add (g e) (ksum (map g l))).
+    rewrite He, IH. reflexivity.
+  Qed.
+
+  Lemma ksum_map_zero : forall (l : list E), ksum (map (fun _ => zero) l) = zero.
+  Proof.
+    induction l as [|e l IH]; [reflexivity|].
+    change (ksum (map (fun _ : E => zero) (e :: l))) with (add zero (ksum (map (fun _ : E => zero) l))).
+    rewrite IH. ring.
+  Qed.
+
+  Lemma pairwise_orth_skipn : forall m l, pairwise_orth E l -> pairwise_orth E (skipn m l).
+  Proof.
+    induction m as [|m IH]; intros l H; [exact H|]. destruct l as [|e l]; [exact H|].
+    cbn [skipn]. apply IH. inversion H; assumption.
+  Qed.
+
+  Lemma normsq_vsum_orth : forall l, pairwise_orth E l -> nsq (vsum E l) = ksum (map nsq l).
+  Proof.
+    intros l H. induction H as [|e l F _ IH].
+    - unfold normsq. apply (inner_zero_l R E).
+    - change (vsum E (e :: l)) with (vadd E e (vsum E l)).
+      change (ksum (map nsq (e :: l))) with (add (nsq e) (ksum (map nsq l))).
+      unfold normsq at 1.
+      rewrite (inner_add_l R E), !inner_add_r.
+      assert (ip e (vsum E l) = zero) as Z.
+      { rewrite (inner_sym R E), inner_vsum_l.
+        rewrite (ksum_map_ext (fun x => ip x e) (fun _ => zero)); [apply ksum_map_zero|].
+        eapply Forall_impl; [|exact F]. cbn. intros a Ha. rewrite (inner_sym R E). exact Ha. }
+      rewrite (inner_sym R E (vsum E l) e), Z. fold (nsq (vsum E l)). rewrite IH. unfold normsq. ring.
+  Qed.
+
+  (* One truncation step.  comps = the Schmidt components sigma_a |L_a>|R_a> of the current state
+     (pairwise orthogonal, summing to the state); the projector fixes the first m and annihilates the
+     others.  Then the discarded part has squared norm = sum of the squared norms (= sigma_a^2) of the
+     discarded components. *)
+  Lemma truncation_step_discard : forall (P : E -> E) (v : E) (comps : list E) (m : nat),
+    self_adjoint E P -> v = vsum E comps -> pairwise_orth E comps ->
+    Forall (fun e => P e = e) (firstn m comps) -> Forall (fun e => P e = v0 E) (skipn m comps) ->
+    nsq (vminus v (P v)) = ksum (map nsq (skipn m comps)).
+  Proof.
+    intros P v comps m Hsa Hv Ho Hk Hz.
+    assert (forall x, ip (vminus v (P v)) x = ip (vsum E (skipn m comps)) x) as A.
+    { intro x. rewrite (inner_sub_l R E). rewrite (Hsa v x). rewrite Hv, !inner_vsum_l.
+      rewrite <- (firstn_skipn m comps) at 1 2. rewrite !map_app, !ksum_app.
+      rewrite (ksum_map_ext (fun e => ip e (P x)) (fun e => ip e x) (firstn m comps)).
+      2:{ eapply Forall_impl; [|exact Hk]. cbn. intros a Ha. rewrite <- (Hsa a x), Ha. reflexivity. }
+      rewrite (ksum_map_ext (fun e => ip e (P x)) (fun _ => zero) (skipn m comps)).
+      2:{ eapply Forall_impl; [|exact Hz]. cbn. intros a Ha. rewrite <- (Hsa a x), Ha. apply (inner_zero_l R E). }
+      rewrite ksum_map_zero. ring. }
+    unfold normsq at 1. rewrite A. rewrite (inner_sym R E). rewrite A.
+    fold (nsq (vsum E (skipn m comps))). apply normsq_vsum_orth. apply pairwise_orth_skipn. exact Ho.
+  Qed.
+End Projections.
+
+(* closed forms (all section variables generalised) *)
+Theorem nested_projection_pythagoras :
+  forall (R : OrdRing) (E : InnerSpace R) (P : nat -> E -> E) (psi : nat -> E) (n : nat),
+    (forall k, (k < n)%nat -> self_adjoint E (P k)) ->
+    (forall k, (k < n)%nat -> psi (S k) = P k (psi k)) ->
+    (forall j k, (j < k)%nat -> (k <= n)%nat -> P j (psi k) = psi k) ->
+    normsq E (vsub E (psi 0%nat) (psi n)) = @ksum_upto R (fun k => normsq E (vsub E (psi k) (psi (S k)))) n
+    /\ normsq E (psi 0%nat) = kadd R (normsq E (psi n)) (@ksum_upto R (fun k => normsq E (vsub E (psi k) (psi (S k)))) n)
+    /\ kle R (normsq E (psi n)) (normsq E (psi 0%nat)).
+Proof. intros R E P psi n H1 H2 H3. apply (nested_projection_pythagoras_sec R E P psi n); assumption. Qed.
+
+(* C05_error_identity: a sweep whose steps are truncations of Schmidt decompositions and whose iterates
+   are nested: squared distance = sum over the steps of the discarded squared singular values
+   ( normsq of component a of step k  =  sigma_{k,a}^2 ), for ANY kept counts m k -- in particular
+   for m k = compute_m_trunc of the generated rules. *)
+Theorem error_identity :
+  forall (R : OrdRing) (E : InnerSpace R) (P : nat -> E -> E) (psi : nat -> E) (n : nat)
+         (comps : nat -> list E) (m : nat -> nat),
+    (forall k, (k < n)%nat -> self_adjoint E (P k)) ->
+    (forall k, (k < n)%nat -> psi (S k) = P k (psi k)) ->
+    (forall j k, (j < k)%nat -> (k <= n)%nat -> P j (psi k) = psi k) ->
+    (forall k, (k < n)%nat -> psi k = vsum E (comps k) /\ pairwise_orth E (comps k) /\
+                              Forall (fun e => P k e = e) (firstn (m k) (comps k)) /\
+                              Forall (fun e => P k e = v0 E) (skipn (m k) (comps k))) ->
+    normsq E (vsub E (psi 0%nat) (psi n))
+      = @ksum_upto R (fun k => ksum (map (normsq E) (skipn (m k) (comps k)))) n
+    /\ kle R (normsq E (psi n)) (normsq E (psi 0%nat)).
+Proof.
+  intros R E P psi n comps m Hsa Hs Hn Hc.
+  destruct (nested_projection_pythagoras R E P psi n Hsa Hs Hn) as [A [_ C]]. split; [|exact C].
+  rewrite A. apply ksum_upto_ext. intros k Hk. destruct (Hc k Hk) as [Hv [Ho [Hk1 Hk2]]].
+  rewrite (Hs k Hk). apply truncation_step_discard; try assumption. apply Hsa; exact Hk.
+Qed.
+
+(* ---- the two inequalities of the property, as far as they are proved ---- *)
+Section Bounds.
+  Variable R : OrdRing.
+  Variable E : InnerSpace R.
+  Add Ring Kring2 : (k_ring R).
+
+  Lemma kle_add2 : forall a b c d : R, kle R a b -> kle R c d -> kle R (kadd R a c) (kadd R b d).
+  Proof.
+    intros a b c d H1 H2. apply (kle_trans R _ (kadd R b c)); [apply (kle_add R); exact H1|].
+    pose proof (kle_add R c d b H2) as H.
+    replace (kadd R c b) with (kadd R b c) in H by ring. replace (kadd R d b) with (kadd R b d) in H by ring.
+    exact H.
+  Qed.
+
+  Lemma ksum_upto_le : forall (f g : nat -> R) n, (forall k, (k < n)%nat -> kle R (f k) (g k)) ->
+    kle R (ksum_upto f n) (ksum_upto g n).
+  Proof.
+    intros f g n. induction n as [|n IH]; intro H; cbn [ksum_upto]; [apply (kle_refl R)|].
+    apply kle_add2; [apply IH; intros; apply H; lia|apply H; lia].
+  Qed.
+
+  (* PARTIAL.  D k stands for the discarded weight  sum_{a >= m_k} s_a(psi_0 at the bond of step k)^2  of the
+     ORIGINAL state.  Full statement of the property (chains):
+        max_k D k  <=  |psi_0 - psi_n|^2  <=  sum_k D k .
+     Proved here: the upper bound GIVEN the per-step interlacing fact  |d_k|^2 <= D k  (singular values of
+     (Pi x 1) M are at most those of M; needs min-max theory of singular values, not available), and the
+     lower bound with the STEP discards |d_k|^2 in place of D k (the Eckart-Young bound with D k itself
+     is not proved). *)
+  Theorem bounds_partial :
+    forall (P : nat -> E -> E) (psi : nat -> E) (n : nat) (D : nat -> R),
+      (forall k, (k < n)%nat -> self_adjoint E (P k)) ->
+      (forall k, (k < n)%nat -> psi (S k) = P k (psi k)) ->
+      (forall j k, (j < k)%nat -> (k <= n)%nat -> P j (psi k) = psi k) ->
+      (forall k, (k < n)%nat -> kle R (normsq E (vsub E (psi k) (psi (S k)))) (D k)) ->
+      kle R (normsq E (vsub E (psi 0%nat) (psi n))) (ksum_upto D n)
+      /\ (forall k, (k < n)%nat ->
+            kle R (normsq E (vsub E (psi k) (psi (S k)))) (normsq E (vsub E (psi 0%nat) (psi n)))).
+  Proof.
+    intros P psi n D Hsa Hs Hn HD. split.
+    - destruct (nested_projection_pythagoras R E P psi n Hsa Hs Hn) as [A _]. rewrite A.
+      apply ksum_upto_le. exact HD.
+    - intros k Hk. apply (step_le_total R E P psi n Hsa Hs Hn k Hk).
+  Qed.
+End Bounds.
+
+(* ======================================================================= Part C: sweep bookkeeping *)
+Lemma set_nth_length : forall (A : Type) i (x : A) l, length (set_nth i x l) = length l.
+Proof. intros A i x l. revert i. induction l as [|y t IH]; intro i; [destruct i; reflexivity|]. destruct i; cbn [set_nth length]; [reflexivity|]. rewrite IH. reflexivity. Qed.
+
+Lemma set_nth_same : forall (A : Type) i (x d : A) l, (i < length l)%nat -> nth i (set_nth i x l) d = x.
+Proof. intros A i x d l. revert i. induction l as [|y t IH]; intros i H; [cbn in H; lia|]. destruct i; cbn [set_nth nth]; [reflexivity|]. apply IH. cbn in H. lia. Qed.
+
+Lemma set_nth_other : forall (A : Type) i j (x d : A) l, i <> j -> nth j (set_nth i x l) d = nth j l d.
+Proof. intros A i j x d l. revert i j. induction l as [|y t IH]; intros i j H; [destruct i; reflexivity|]. destruct i, j; cbn [set_nth nth]; try reflexivity; [lia|]. apply IH. lia. Qed.
+
+Definition apply_updates (ups : list (nat * Z)) (d : list Z) : list Z :=
+  fold_left (fun d pv => set_nth (fst pv) (snd pv) d) ups d.
+
+Lemma apply_updates_length : forall ups d, length (apply_updates ups d) = length d.
+Proof. induction ups as [|u ups IH]; intro d; [reflexivity|]. cbn [apply_updates fold_left]. fold (apply_updates ups (set_nth (fst u) (snd u) d)). rewrite IH. apply set_nth_length. Qed.
+
+Lemma apply_updates_untouched : forall ups d p, ~ In p (map fst ups) -> nth p (apply_updates ups d) 0 = nth p d 0.
+Proof.
+  induction ups as [|u ups IH]; intros d p H; [reflexivity|].
+  cbn [apply_updates fold_left]. fold (apply_updates ups (set_nth (fst u) (snd u) d)).
+  rewrite IH; [|intro C; apply H; right; exact C]. apply set_nth_other. intro C. apply H. left. exact C.
+Qed.
+
+Lemma apply_updates_hit : forall ups d p v, NoDup (map fst ups) -> In (p, v) ups -> (p < length d)%nat ->
+  nth p (apply_updates ups d) 0 = v.
+Proof.
+  induction ups as [|u ups IH]; intros d p v ND I L; [destruct I|].
+  cbn [apply_updates fold_left]. fold (apply_updates ups (set_nth (fst u) (snd u) d)).
+  cbn [map] in ND. inversion ND as [|? ? Hnot ND']; subst. destruct I as [->|I].
+  - cbn [fst snd] in *. rewrite apply_updates_untouched; [|exact Hnot]. apply set_nth_same. exact L.
+  - apply IH; [exact ND'|exact I|rewrite set_nth_length; exact L].
+Qed.
+
+Lemma sweep_as_updates : forall mt spectrum to_right idxs d,
+  sweep_dims mt spectrum to_right idxs d
+  = apply_updates (map (fun idx => (Z.to_nat (cut_bond idx to_right),
+                                    Z.min (mt (spectrum idx) idx to_right) (py_len (spectrum idx)))) idxs) d.
+Proof.
+  intros mt spectrum to_right idxs. unfold sweep_dims, apply_updates.
+  induction idxs as [|i idxs IH]; intro d; [reflexivity|]. cbn [fold_left map fst snd]. apply IH.
+Qed.
+
+Lemma cut_positions : forall n to_right,
+  map (fun idx => Z.to_nat (cut_bond idx to_right)) (iter_idx_list n to_right)
+  = if to_right then seq 1 (n - 1) else rev (seq 1 (n - 1)).
+Proof.
+  intros n to_right. unfold iter_idx_list, cut_bond. destruct to_right; rewrite map_map.
+  - rewrite <- seq_shift. apply map_ext. intro a. lia.
+  - rewrite <- (map_id (rev (seq 1 (n - 1)))) at 2. apply map_ext. intro a. lia.
+Qed.
+
+(* every interior bond 1..n-1 of an n-site chain is cut exactly once, with the kept count computed by
+   the rule for (sigma, idx, left) of THAT step, and the cut bond is the one whose limit the rule used *)
+Lemma chain_dims_after_compress_gen : forall mt spectrum n to_right dims0, length dims0 = S n ->
+  forall b, (1 <= b <= n - 1)%nat ->
+    exists idx, In idx (iter_idx_list n to_right) /\ cut_bond idx to_right = Z.of_nat b /\
+      nth b (sweep_dims mt spectrum to_right (iter_idx_list n to_right) dims0) 0
+        = Z.min (mt (spectrum idx) idx to_right) (py_len (spectrum idx)).
+Proof.
+  intros mt spectrum n to_right dims0 L b Hb.
+  set (ups := map (fun idx => (Z.to_nat (cut_bond idx to_right),
+                   Z.min (mt (spectrum idx) idx to_right) (py_len (spectrum idx)))) (iter_idx_list n to_right)).
+  assert (map fst ups = if to_right then seq 1 (n - 1) else rev (seq 1 (n - 1))) as Pos.
+  { unfold ups. rewrite map_map. cbn [fst]. apply cut_positions. }
+  assert (NoDup (map fst ups)) as ND.
+  { rewrite Pos. destruct to_right; [apply seq_NoDup|apply NoDup_rev; apply seq_NoDup]. }
+  assert (In b (map fst ups)) as Ib.
+  { rewrite Pos. destruct to_right; [|apply -> in_rev]; apply in_seq; lia. }
+  apply in_map_iff in Ib. destruct Ib as [[p v] [Hp Hin]]. cbn [fst] in Hp. subst p.
+  pose proof Hin as Hin2. unfold ups in Hin2. apply in_map_iff in Hin2. destruct Hin2 as [idx [Heq Hidx]].
+  inversion Heq as [[Hb1 Hv]]. exists idx. split; [exact Hidx|]. split.
+  - assert (0 <= cut_bond idx to_right).
+    { unfold iter_idx_list in Hidx. unfold cut_bond. destruct to_right; apply in_map_iff in Hidx; destruct Hidx as [a [<- _]]; lia. }
+    lia.
+  - assert (sweep_dims mt spectrum to_right (iter_idx_list n to_right) dims0 = apply_updates ups dims0) as Hsw
+      by apply sweep_as_updates.
+    rewrite Hsw, Hb1. rewrite (apply_updates_hit ups dims0 b v ND Hin); [symmetry; exact Hv|lia].
+Qed.
+
+Lemma chain_dims_after_compress : forall self spectrum n to_right dims0, length dims0 = S n ->
+  cfg_criteria self <> Threshold ->
+  forall b, (1 <= b <= n - 1)%nat ->
+    nth b (sweep_dims (compute_m_trunc self) spectrum to_right (iter_idx_list n to_right) dims0) 0
+      <= py_index (cfg_max_dims self) (Z.of_nat b).
+Proof.
+  intros self spectrum n to_right dims0 L C b Hb.
+  destruct (chain_dims_after_compress_gen (compute_m_trunc self) spectrum n to_right dims0 L b Hb) as [idx [_ [Hc ->]]].
+  pose proof (m_trunc_le_M self (spectrum idx) idx to_right C) as H. rewrite Hc in H. lia.
+Qed.
+
+Lemma chain_ends_untouched : forall mt spectrum n to_right dims0, length dims0 = S n ->
+  length (sweep_dims mt spectrum to_right (iter_idx_list n to_right) dims0) = S n /\
+  nth 0 (sweep_dims mt spectrum to_right (iter_idx_list n to_right) dims0) 0 = nth 0 dims0 0 /\
+  nth n (sweep_dims mt spectrum to_right (iter_idx_list n to_right) dims0) 0 = nth n dims0 0.
+Proof.
+  intros mt spectrum n to_right dims0 L. rewrite sweep_as_updates.
+  set (ups := map _ (iter_idx_list n to_right)).
+  assert (map fst ups = if to_right then seq 1 (n - 1) else rev (seq 1 (n - 1))) as Pos.
+  { unfold ups. rewrite map_map. cbn [fst]. apply cut_positions. }
+  split; [rewrite apply_updates_length; exact L|].
+  split; apply apply_updates_untouched; rewrite Pos; destruct to_right; try rewrite <- in_rev; rewrite in_seq; lia.
+Qed.
+
+(* with a global limit M (set_bonddim on a config without per-bond list): every interior bond <= M *)
+Lemma chain_dims_global_M : forall crit thr M spectrum n to_right dims0, length dims0 = S n ->
+  crit <> Threshold ->
+  forall b, (1 <= b <= n - 1)%nat ->
+    nth b (sweep_dims (compute_m_trunc (mk_config crit thr (set_bonddim None M (S n)))) spectrum to_right
+                      (iter_idx_list n to_right) dims0) 0 <= M.
+Proof.
+  intros crit thr M spectrum n to_right dims0 L C b Hb.
+  pose proof (chain_dims_after_compress (mk_config crit thr (set_bonddim None M (S n))) spectrum n to_right dims0 L C b Hb) as H.
+  cbn [cfg_max_dims set_bonddim] in H. unfold py_index in H. rewrite Nat2Z.id in H.
+  rewrite (nth_indep (repeat M (S n)) 0 M) in H by (rewrite repeat_length; lia).
+  rewrite nth_repeat in H. exact H.
+Qed.
+
+(* ---- tree ---- *)
+Fixpoint tree_ind' (P : tree -> Prop) (H : forall i cs, Forall P cs -> P (Node i cs)) (t : tree) : P t :=
+  match t with
+  | Node i cs => H i cs ((fix go (l : list tree) : Forall P l :=
+                            match l with [] => Forall_nil P | c :: r => Forall_cons c (tree_ind' P H c) (go r) end) cs)
+  end.
+
+Lemma truncated_children_app : forall a b, truncated_children (a ++ b) = truncated_children a ++ truncated_children b.
+Proof. intros. unfold truncated_children. apply flat_map_app. Qed.
+
+Definition child_events (p : nat) (c : tree) : list event :=
+  EvTrunc p (tid c) (negb (is_nil (tchildren c)))
+    :: (if negb (is_nil (tchildren c)) then compress_recursion c ++ [EvPush (tid c)] else []).
+
+Lemma compress_recursion_unfold : forall p cs, compress_recursion (Node p cs) = flat_map (child_events p) cs.
+Proof. intros p cs. induction cs as [|c r IH]; [reflexivity|]. cbn [flat_map]. rewrite <- IH. reflexivity. Qed.
+
+Lemma preorder_unfold : forall p cs, preorder (Node p cs) = p :: flat_map preorder cs.
+Proof.
+  intros p cs. assert (tl (preorder (Node p cs)) = flat_map preorder cs) as H.
+  { induction cs as [|c r IH]; [reflexivity|]. cbn [flat_map]. rewrite <- IH. reflexivity. }
+  rewrite <- H. reflexivity.
+Qed.
+
+(* compress_recursion truncates the bond of every non-root node exactly once, in pre-order *)
+Lemma compress_recursion_visits : forall t, truncated_children (compress_recursion t) = tl (preorder t).
+Proof.
+  induction t as [p cs IH] using tree_ind'. rewrite compress_recursion_unfold, preorder_unfold. cbn [tl].
+  induction IH as [|c r Hc _ IHr]; [reflexivity|].
+  cbn [flat_map]. rewrite truncated_children_app, IHr. f_equal.
+  destruct c as [ci ccs]. rewrite preorder_unfold in Hc |- *. cbn [tl] in Hc.
+  unfold child_events. cbn [tid tchildren].
+  change (truncated_children (EvTrunc p ci (negb (is_nil ccs)) :: ?x)) with (ci :: truncated_children x).
+  destruct ccs as [|c1 ccs]; cbn [is_nil negb].
+  - reflexivity.
+  - rewrite truncated_children_app, Hc. cbn [truncated_children flat_map app]. rewrite app_nil_r. reflexivity.
+Qed.
+
+Lemma tree_dims_app : forall mt sp qr a b d, tree_dims mt sp qr (a ++ b) d = tree_dims mt sp qr b (tree_dims mt sp qr a d).
+Proof. intros. unfold tree_dims. apply fold_left_app. Qed.
+
+Section TreeDims.
+  Variable mt : list Q -> Z -> bool -> Z.
+  Variable spectrum : nat -> list Q.
+  Variable qr_dim : nat -> Z -> Z.
+  Hypothesis qr_shrinks : forall c d, qr_dim c d <= d.      (* economic QR: new bond = min(rows, cols) <= cols *)
+
+  Definition bound (c : nat) : Z := Z.min (mt (spectrum c) (Z.of_nat c) false) (py_len (spectrum c)).
+
+  Lemma tree_dims_no_trunc : forall evs d c, ~ In c (truncated_children evs) ->
+    tree_dims mt spectrum qr_dim evs d c <= d c.
+  Proof.
+    induction evs as [|e evs IH]; intros d c H; [cbn; lia|].
+    cbn [tree_dims fold_left]. 
+    match goal with |- fold_left ?f evs ?d' c <= _ => change (fold_left f evs d' c) with (tree_dims mt spectrum qr_dim evs d' c) end.
+    destruct e as [p c' cc|c'].
+    - cbn [truncated_children flat_map app] in H. fold (truncated_children evs) in H.
+      etransitivity; [apply IH; intro C; apply H; right; exact C|].
+      unfold upd. destruct (Nat.eqb c c') eqn:Eq; [|lia]. apply Nat.eqb_eq in Eq. exfalso. apply H. left. congruence.
+    - cbn [truncated_children flat_map app] in H. fold (truncated_children evs) in H.
+      etransitivity; [apply IH; exact H|]. unfold upd. destruct (Nat.eqb c c') eqn:Eq; [|lia].
+      apply Nat.eqb_eq in Eq. subst c'. apply qr_shrinks.
+  Qed.
+End TreeDims.
+
+Section TreeDims2.
+  Variable mt : list Q -> Z -> bool -> Z.
+  Variable spectrum : nat -> list Q.
+  Variable qr_dim : nat -> Z -> Z.
+  Hypothesis qr_shrinks : forall c d, qr_dim c d <= d.
+
+  (* after the LAST truncation of c's bond its dimension is the kept count; later QR pushes only shrink it *)
+  Lemma tree_dims_truncated : forall evs d c, In c (truncated_children evs) ->
+    tree_dims mt spectrum qr_dim evs d c <= bound mt spectrum c.
+  Proof.
+    induction evs as [|e evs IH]; intros d c H; [destruct H|].
+    cbn [tree_dims fold_left].
+    match goal with |- fold_left ?f evs ?d' c <= _ => change (fold_left f evs d' c) with (tree_dims mt spectrum qr_dim evs d' c) end.
+    destruct (in_dec Nat.eq_dec c (truncated_children evs)) as [I|NI]; [apply IH; exact I|].
+    destruct e as [p c' cc|c'].
+    - cbn [truncated_children flat_map app] in H. fold (truncated_children evs) in H.
+      destruct H as [->|H]; [|contradiction].
+      etransitivity; [apply (tree_dims_no_trunc mt spectrum qr_dim qr_shrinks); exact NI|].
+      unfold upd, bound. rewrite Nat.eqb_refl. lia.
+    - cbn [truncated_children flat_map app] in H. fold (truncated_children evs) in H. contradiction.
+  Qed.
+End TreeDims2.
+
+(* every non-root node of every tree: after compress() its bond dimension is at most the kept count the
+   rule computed for it with idx = its node index and left = False -- and hence at most its own limit *)
+Lemma tree_dims_after_compress : forall self spectrum qr_dim, (forall c d, qr_dim c d <= d) ->
+  forall t dims0 c, In c (tl (preorder t)) ->
+    tree_dims (compute_m_trunc self) spectrum qr_dim (compress_recursion t) dims0 c
+      <= Z.min (compute_m_trunc self (spectrum c) (Z.of_nat c) false) (py_len (spectrum c))
+    /\ (cfg_criteria self <> Threshold ->
+        tree_dims (compute_m_trunc self) spectrum qr_dim (compress_recursion t) dims0 c
+          <= py_index (cfg_max_dims self) (Z.of_nat c)).
+Proof.
+  intros self spectrum qr_dim Hq t dims0 c Hc. rewrite <- compress_recursion_visits in Hc.
+  pose proof (tree_dims_truncated (compute_m_trunc self) spectrum qr_dim Hq _ dims0 c Hc) as H.
+  unfold bound in H. split; [exact H|]. intro C.
+  pose proof (m_trunc_le_M self (spectrum c) (Z.of_nat c) false C) as H2. unfold cut_bond in H2. lia.
+Qed.
+
+Lemma tree_exactly_once : forall t, NoDup (preorder t) ->
+  NoDup (truncated_children (compress_recursion t)) /\
+  (forall c, In c (truncated_children (compress_recursion t)) <-> In c (tl (preorder t))).
+Proof.
+  intros t ND. rewrite compress_recursion_visits. split; [|intro c; reflexivity].
+  destruct (preorder t) as [|r l]; [constructor|]. cbn [tl]. inversion ND; assumption.
+Qed.
